@@ -107,7 +107,21 @@ func TestRAC_C17(t *testing.T) {
 	for i := 0; i < 10; i++ {
 		run(randomHistory(rng, 3+rng.Intn(8), 8))
 	}
-	res.Rule = fmt.Sprintf("every history with <= %d leaves / <= %d blocks (+10 seeded random): around every Stump.Update / Pollard.Modify / MapPollard.Modify / Undo the argument slices are snapshotted and compared; results handed out before each block (roots, stump, proofs, missing positions, update data) are compared after the whole history and its undo; implementations: Stump, Pollard, MapPollard %v. distinct = histories", maxLeaves, maxBlocks, cfgs)
+	// the light client's entry points (Proof.Update / Proof.Undo): argument slices around every call
+	enumHistories(4, 3, func(h racHistory) {
+		total := 0
+		for _, b := range h {
+			total += b.Adds
+		}
+		for mask := uint64(0); mask < (uint64(1) << uint(total)); mask++ {
+			res.onlyClauses("C17.", func(tmp *racResult) { runLightClient(tmp, h, mask, len(h), false) })
+		}
+	})
+	for i := 0; i < 40; i++ {
+		h := lightHistory(rng)
+		res.onlyClauses("C17.", func(tmp *racResult) { runLightClient(tmp, h, rng.Uint64(), 1, false) })
+	}
+	res.Rule = fmt.Sprintf("every history with <= %d leaves / <= %d blocks (+10 seeded random): around every Stump.Update / Pollard.Modify / MapPollard.Modify / Undo the argument slices are snapshotted and compared; results handed out before each block (roots, stump, proofs, missing positions, update data) are compared after the whole history and its undo; the light client (Proof.Update / Proof.Undo) is run over every history with <= 4 leaves / <= 3 blocks and every remember mask (+40 seeded random larger ones) with its argument slices snapshotted around every call; implementations: Stump, Pollard, MapPollard %v. distinct = histories", maxLeaves, maxBlocks, cfgs)
 	res.Scope = fmt.Sprintf("histories=%d", n)
 	res.write(t)
 }
